@@ -7,12 +7,17 @@ META = {
     "level": "other",
     "text": "Deductive (unbounded): the guard of match.main on the loaded chain of substitutions is verified from its AST for chains of any length: a variant is skipped with an "
             "infinite code length if and only if its chain contains an unrecoverable (non-dict, i.e. nan) entry; a chain of recoverable substitutions of any length is never "
-            "skipped there. The layout of the Hessian file is verified on both sides: each of the three writer loops of test_all_Fisher.convert_params stores H[r, c] (r <= c < "
+            "skipped there. The rest of the loop body of match.main is verified for any number of parameters with the likelihood an uninterpreted function: a non-positive entry of the "
+            "transformed Fisher diagonal gives an infinite code length; on regular input the reported parameters are the converted parameters with every entry below one precision step "
+            "zeroed (zero padded), the reported likelihood is the unique function's or, when something snapped, the likelihood of the variant's own function at the reported parameters, "
+            "the code length is -(k/2) ln 3 + sum over the kept parameters of (1/2 ln fish_j + ln|p_j|); when snapping makes the likelihood infinite the original converted parameters and "
+            "the unique function's likelihood are reported; other rows are untouched. The layout of the Hessian file is verified on both sides: each of the three writer loops of test_all_Fisher.convert_params stores H[r, c] (r <= c < "
             "nparam) at position r max_param - r (r - 1) / 2 + (c - r) and touches nothing after the rows written; the reader in simplifier.convert_params rebuilds the symmetric matrix "
             "from exactly those positions and truncates it to the parameters handed in; a lemma composes the two (reader(writer(H)) = H). Bounded stand-in (not counted as proved): simplifier.convert_params against an independently composed map with an mpmath Jacobian and J^-T F J^-1 for "
             "chains up to length 3 over 18 substitution forms and permutations; match.main end to end on synthetic libraries (closed-form fits, analytic Hessians, 1-3 ranks): "
             "index, parameters, likelihood (re-evaluated when parameters snap), code length, finiteness for recoverable chains, non-finite for nan chains.",
-    "note": "A chain entry is an opaque object with the predicate isinstance(., dict). The conversion, snapping and code-length part of the loop body is bounded only. A-sympy.",
+    "note": "A chain entry is an opaque object with the predicate isinstance(., dict). simplifier.convert_params itself (composition of the maps, Jacobian, J^-T F J^-1) is sympy/numpy linear algebra and is "
+            "bounded only; the subset search of the infinite-likelihood fallback is covered only for a likelihood that is +inf at every re-evaluation. A-sympy, A-float.",
     "technique": "contract-based deductive verification of the guard region and of the Hessian file layout, writer and reader (AST->VC->SMT) + bounded stand-in with independent Jacobian oracle",
 }
 CHECKER = "./bin/check C05"
@@ -23,6 +28,16 @@ def check(run):
                                         note="region: the guard `if` of the loop body only")
     if D.canary(run, "fitting/match.py", "main", c_match.guard_contract) is False:
         raise RuntimeError("canary verified: engine vacuous on the match guard")
+    mfailed = []
+    setopts = lambda eng: setattr(eng, "solver_opts", eng.PORTFOLIO_SHORT_FIRST)
+    for v in ("any", "finite", "infinite"):
+        st_, f_, _e = D.verify_function(run, "fitting/match.py", "main", (lambda v=v: c_match.snap_contract(v)), timeout_ms=10000, engine_setup=setopts, tag="snap/" + v,
+                                        note="region: loop body from the test of the transformed Fisher diagonal to its end; likelihood an uninterpreted function of (function, parameters); "
+                                             "variant any: arbitrary input, first statement only; finite / infinite: regular input (all diagonal entries positive and finite), the re-evaluated "
+                                             "likelihood finite everywhere / +inf everywhere")
+        mfailed += f_
+    if D.canary(run, "fitting/match.py", "main", (lambda: c_match.snap_contract("finite")), engine_setup=setopts) is False:
+        raise RuntimeError("canary verified: engine vacuous on the match snapping region")
     lfailed = D.hessian_layout(run)
     found, B = _wrap.run_bounded(run, "checks.C05_bounded")
     rr = run.harness("rt_rows.py", {"mode": "triu", "nmax": 9}, timeout=300)
@@ -32,6 +47,7 @@ def check(run):
     run.add_bounded("external contract of np.triu_indices(n): (r, c) sits at position r n - r (r - 1) / 2 + c - r", "numpy.triu_indices",
                     "n <= 9, every (r, c)", rr["cases"], rr["distinct"], 0)
     _wrap.report_unproved(run, failed, found, "match.main guard")
+    _wrap.report_unproved(run, mfailed, found or bool(run.violations), "match.main (snapping / code length / reported row)")
     _wrap.report_unproved(run, lfailed, found or bool(run.violations), "Hessian layout (writer in test_all_Fisher.convert_params / reader in simplifier.convert_params)")
     run.assume("A-sympy", "chain entries opaque (dict or not)")
     run.trust("pyvc", "z3 5.1.0")
